@@ -207,13 +207,24 @@ def ids_list(t):
 
 
 # ------------------------------------------------------------ solver helpers
-def discharge(tr, d, hyps, goals, label, replay=None, timeout=30.0, varnodes=None, sig_prefix=''):
+def discharge(tr, d, hyps, goals, label, replay=None, timeout=30.0, varnodes=None, sig_prefix='', defined=True):
     """Prove each (label, node[, extra hyps]) goal under hyps.  On `sat` replay(values)->(bool, detail)
     decides between violation and inconclusive.  Returns number proved."""
     from symtorch.explore import prove, _to_float
+    from symtorch import cur
+    from symtorch.axioms import ground_axioms
 
     proved = 0
     varnodes = varnodes or {}
+    goals = list(goals)
+    if defined:
+        t = cur()
+        obl = [d.not_(d.eq(b, 0)) for b in t.denominators]
+        obl += [d.lt(0, x) if kind == 'pos' else d.le(0, x) for kind, x in t.domains]
+        if obl:
+            allok = d.and_(*obl)
+            goals.append(('every denominator is non-zero and every log/sqrt argument is in its domain', allok,
+                          ground_axioms(d, [allok]), sig_prefix + 'well-defined'))
     for g in goals:
         glabel, node = g[0], g[1]
         extra = list(g[2]) if len(g) > 2 else []
